@@ -17,7 +17,7 @@ import ast
 import itertools
 
 from sa.model import AnalysisError, walk_shallow, dotted, norm
-from sa.util import cfg_of, shallow_calls, guarded_by_edge, strip_not, local_defs
+from sa.util import cfg_of, shallow_calls, guarded_by_edge, strip_not, local_defs, resolve_name
 from sa import fabric, queues, pureeval
 from sa.context import callgraph
 
@@ -153,15 +153,46 @@ def check(run, model, tier):
     run.touch(stop, gst)
     clears = [n for n in gst.nodes if n.kind not in ('entry', 'exit', 'xexit', 'def') and any(isinstance(c.func, ast.Attribute) and c.func.attr == 'clear' for c in n.calls())]
     sh = list(stop.nested.values())
-    if len(sh) != 1:
-        raise AnalysisError('stop: expected one nested thread-stopping helper')
-    sh = sh[0]
-    scalls = [(n, c) for n in gst.nodes if n.kind not in ('entry', 'exit', 'xexit', 'def') for c in n.calls() if isinstance(c.func, ast.Name) and c.func.id == sh.name]
-    ok = bool(clears) and all(any(gst.dominates(cl, n) for cl in clears) for n, c in scalls)
+    if len(sh) > 1:
+        raise AnalysisError('stop: more than one nested helper')
+    pairs_start = {(th['handle'], th['queue'][0] if th['queue'] else None) for th in w.threads.values()}
+    sdefs = local_defs(stop.node)
+    selfs = stop.params[0]
+    # the places where a thread is woken and joined: inside the one nested helper (called once per kind with (handle, queue)), or in stop() itself, once per kind
+    instances = []          # (function, cfg, thread expression, queue expression)
+    if sh:
+        sh = sh[0]
+        scalls = [(n, c) for n in gst.nodes if n.kind not in ('entry', 'exit', 'xexit', 'def') for c in n.calls() if isinstance(c.func, ast.Name) and c.func.id == sh.name]
+        wake_nodes = [n for n, c in scalls]
+        pairs_stop = set()
+        for n, c in scalls:
+            a = [dotted(x) for x in c.args] + [dotted(k.value) for k in c.keywords]
+            pairs_stop.add(tuple(x.split('.', 1)[1] if x and '.' in x else x for x in a))
+        if len(sh.params) < 2:
+            raise AnalysisError('stop helper does not take (thread, queue)')
+        instances.append((sh, cfg_of(sh), sh.params[0], sh.params[1]))
+    else:
+        pairs_stop = set()
+        wake_nodes = []
+        for h_, q_ in sorted(pairs_start):
+            te, qe = '%s.%s' % (selfs, h_), '%s.%s' % (selfs, q_)
+            js = [n for n in gst.nodes if n.kind not in ('entry', 'exit', 'xexit', 'def') and any(isinstance(c.func, ast.Attribute) and c.func.attr == 'join' and dotted(c.func.value) == te for c in n.calls())]
+            ps = [n for n in gst.nodes if n.kind not in ('entry', 'exit', 'xexit', 'def') and any(isinstance(c.func, ast.Attribute) and c.func.attr in ('put', 'put_nowait') and dotted(c.func.value) == qe for c in n.calls())]
+            if js:
+                pairs_stop.add((h_, q_ if ps else None))
+            wake_nodes += ps
+            instances.append((stop, gst, te, qe))
+        # a join on anything else
+        for n in gst.nodes:
+            if n.kind in ('entry', 'exit', 'xexit', 'def'):
+                continue
+            for c in n.calls():
+                if isinstance(c.func, ast.Attribute) and c.func.attr == 'join' and (dotted(c.func.value) or '').split('.')[-1] not in {h for h, q in pairs_start}:
+                    raise AnalysisError('stop joins %s: not one of the fabric thread handles' % norm(c.func.value))
+    ok = bool(clears) and all(any(gst.dominates(cl, n) for cl in clears) for n in wake_nodes) and bool(wake_nodes)
     run.inst('ORDER.stop', stop, 'run event cleared before any thread is woken', ok,
              '' if ok else 'a delivery thread is woken before the run event is cleared: it loops again and blocks on its queue, join never returns', obligation=True)
     # cleared object is the singleton run event
-    sdefs = local_defs(stop.node)
     for cl in clears:
         for c in cl.calls():
             if isinstance(c.func, ast.Attribute) and c.func.attr == 'clear':
@@ -169,28 +200,45 @@ def check(run, model, tier):
                 src = sdefs.get(recv.id, [None])[0] if isinstance(recv, ast.Name) else recv
                 ok = (isinstance(src, ast.Call) and norm(src.func) == 'FiberThreadEvent') or (dotted(recv) or '').endswith('fabric_task_event')
                 run.inst('ORDER.stop', stop, 'clears the shared run event', ok, 'stop clears %s, not the shared run event' % norm(recv), node=c, obligation=True)
-    pairs_stop = set()
-    for n, c in scalls:
-        a = [dotted(x) for x in c.args] + [dotted(k.value) for k in c.keywords]
-        pairs_stop.add(tuple(x.split('.', 1)[1] if x and '.' in x else x for x in a))
-    pairs_start = {(th['handle'], th['queue'][0] if th['queue'] else None) for th in w.threads.values()}
     ok = pairs_stop == pairs_start
     run.inst('ORDER.stop', stop, '(handle, queue) pairs of stop == pairs of start', ok,
-             '' if ok else 'stop wakes/joins %s but start created %s: a thread is woken through a queue it does not read' % (sorted(pairs_stop), sorted(pairs_start)), obligation=True)
-    gh = cfg_of(sh)
-    tp, qp = sh.params[0], sh.params[1]
-    puts = [n for n in gh.nodes if n.kind not in ('entry', 'exit', 'xexit', 'def') and
-            any(isinstance(c.func, ast.Attribute) and c.func.attr == 'put' and isinstance(c.func.value, ast.Name) and c.func.value.id == qp for c in n.calls())]
-    joins = [n for n in gh.nodes if n.kind not in ('entry', 'exit', 'xexit', 'def') and
-             any(isinstance(c.func, ast.Attribute) and c.func.attr == 'join' and isinstance(c.func.value, ast.Name) and c.func.value.id == tp for c in n.calls())]
-    run.floor('stop helper: join sites', len(joins), 1)
-    for j in joins:
-        ok = any(gh.dominates(p, j) for p in puts)
-        run.inst('ORDER.stop', sh, 'wake-up put precedes the join', ok,
-                 '' if ok else 'join() is reached without a wake-up item having been put: the thread is blocked in get() and join never returns', node=j.ast, obligation=True)
-        jv = values_at(gh, j, {'%s.is_alive()' % tp, '%s is None' % tp})
-        alive = bool(jv) and all(v.get('%s.is_alive()' % tp) is True for v in jv)
-        run.inst('ORDER.stop', sh, 'join only a live thread', bool(alive), 'join is attempted on a thread that may never have started', node=j.ast, obligation=True)
+             '' if ok else 'stop wakes/joins %s but start created %s: a thread is woken through a queue it does not read' % (sorted(pairs_stop, key=str), sorted(pairs_start, key=str)), obligation=True)
+    n_join = 0
+    item_classes = set()
+    pub_ = fab.methods.get('publish')
+    if pub_ is not None:
+        pdefs_ = local_defs(pub_.node)
+        for c in shallow_calls(pub_.node):
+            if isinstance(c.func, ast.Attribute) and c.func.attr in ('put', 'put_nowait') and c.args:
+                it_ = resolve_name(c.args[0], pdefs_)
+                if isinstance(it_, ast.Call):
+                    item_classes.add(norm(it_.func))
+    for fn_, gh, tp, qp in instances:
+        puts = [n for n in gh.nodes if n.kind not in ('entry', 'exit', 'xexit', 'def') and
+                any(isinstance(c.func, ast.Attribute) and c.func.attr in ('put', 'put_nowait') and dotted(c.func.value) == qp for c in n.calls())]
+        joins = [n for n in gh.nodes if n.kind not in ('entry', 'exit', 'xexit', 'def') and
+                 any(isinstance(c.func, ast.Attribute) and c.func.attr == 'join' and dotted(c.func.value) == tp for c in n.calls())]
+        n_join += len(joins)
+        for j in joins:
+            ok = any(gh.dominates(p, j) for p in puts)
+            run.inst('ORDER.stop', fn_, 'wake-up put precedes the join of %s' % tp, ok,
+                     '' if ok else 'join() is reached without a wake-up item having been put: the thread is blocked in get() and join never returns', node=j.ast, obligation=True)
+            jv = values_at(gh, j, {'%s.is_alive()' % tp, '%s is None' % tp})
+            alive = bool(jv) and all(v.get('%s.is_alive()' % tp) is True for v in jv)
+            run.inst('ORDER.stop', fn_, 'join only a live thread (%s)' % tp, bool(alive), 'join is attempted on a thread that may never have started', node=j.ast, obligation=True)
+        # what is put to wake the thread shares a heap with pending publications: it must be an item of the class publish() queues (anything else - None, a
+        # bare event, a tuple - is compared with `<` against the queued items and raises TypeError unless the heap happens to be empty)
+        fdefs = local_defs(fn_.node)
+        for p in puts:
+            for c in p.calls():
+                if isinstance(c.func, ast.Attribute) and c.func.attr in ('put', 'put_nowait') and dotted(c.func.value) == qp and c.args:
+                    item = resolve_name(c.args[0], fdefs)
+                    okc = isinstance(item, ast.Call) and norm(item.func) in item_classes
+                    run.inst('ORDER.stop', fn_, 'the wake-up item is of the class publish() queues: ' + norm(item), okc,
+                             '' if okc else ('stop() wakes the delivery thread by putting %s into its priority queue, where publish() puts %s: with a publication still waiting the heap '
+                                             'compares the two with `<` and raises TypeError - stop() fails half way (run event already cleared, threads not joined) and the stray item '
+                                             'makes the delivery thread of every later start() crash' % (norm(item), ' / '.join(sorted(item_classes)) or '?')), node=c, obligation=True)
+    run.floor('stop: join sites', n_join, 1)
     # ---- delivery loops end only through the shared run event
     from props.c06 import runner_params
     for reg, th in sorted(w.threads.items()):
